@@ -49,7 +49,7 @@ Example C07_nonvacuous :
      OSamples []; OItem None; OSamples []].
 Proof.
   split; [exact ex_file_valid|]. split; [repeat constructor|].
-  split; [vm_compute; repeat constructor; discriminate|]. split; vm_compute; reflexivity.
+  split; [forall_trace|]. split; vm_compute; reflexivity.
 Qed.
 
 (* ---- the defect of the original revision (F-C07a), as a computation on the model:
